@@ -323,13 +323,22 @@ class Interp(object):
         if ctx.spec_mode:
             ts = []
             for x in e.values:
-                t = z3.simplify(truth(ctx, self.ev(x)))
+                try:
+                    t = z3.simplify(truth(ctx, self.ev(x)))
+                except (PyRaise, Unsupported):
+                    # not evaluable here; fine if an earlier operand
+                    # already decides the result on this path
+                    if ts and isinstance(e.op, ast.And) and \
+                            ctx.decide(z3.And(ts)) is False:
+                        return VBool(False)
+                    if ts and isinstance(e.op, ast.Or) and \
+                            ctx.decide(z3.Or(ts)) is True:
+                        return VBool(True)
+                    raise
                 # concrete short-circuit keeps specifications total
-                if isinstance(e.op, ast.And) and (
-                        z3.is_false(t) or ctx.decide(t) is False):
+                if isinstance(e.op, ast.And) and z3.is_false(t):
                     return VBool(False)
-                if isinstance(e.op, ast.Or) and (
-                        z3.is_true(t) or ctx.decide(t) is True):
+                if isinstance(e.op, ast.Or) and z3.is_true(t):
                     return VBool(True)
                 ts.append(t)
             if isinstance(e.op, ast.And):
@@ -478,9 +487,17 @@ class Interp(object):
             # lazy: the consequent is not evaluated under a false antecedent
             a0 = truth(self.ctx, self.ev(e.args[0]))
             a0 = z3.simplify(a0)
-            if z3.is_false(a0) or self.ctx.decide(a0) is False:
+            if z3.is_false(a0):
                 return VBool(True)
-            return VBool(z3.Implies(a0, truth(self.ctx, self.ev(e.args[1]))))
+            try:
+                return VBool(z3.Implies(
+                    a0, truth(self.ctx, self.ev(e.args[1]))))
+            except (PyRaise, Unsupported):
+                # the consequent is not evaluable in this state (e.g. an
+                # unbound local); fine if the antecedent is false here
+                if self.ctx.decide(a0) is False:
+                    return VBool(True)
+                raise
         fn = self.ev(e.func)
         args = []
         for a in e.args:
